@@ -622,3 +622,34 @@ func VH_equivKeys() {
 	}
 	verifAssert("same-output-every-time", outs[0] == outs[1])
 }
+
+// VH_parenProgram (C18e): whole programs in which one value-producing sub-expression is wrapped
+// in redundant parentheses — an array element, an operand, an argument, an index, a condition,
+// an initialiser — print the same as the unwrapped program. The programs evaluate the wrapped
+// construct repeatedly and mutate what it produced in between, so that anything the interpreter
+// remembers per syntax node shows.
+func VH_parenProgram() {
+	where := verifChoice(6)
+	w := func(k int, e string) string {
+		if k == where {
+			return "(" + e + ")"
+		}
+		return e
+	}
+	var outs [2][]string
+	for run := 0; run < 2; run++ {
+		if run == 1 {
+			where = -1
+		}
+		src := kwFun + " bump(k) { " + kwVar + " a = [" + w(0, "0") + ", 0, 0]; a[" + w(1, "k") + "] = a[k] + " + w(2, "1") + "; " + kwReturn + " a; }\n" +
+			kwPrint + " bump(0);\n" + kwPrint + " bump(" + w(3, "1") + ");\n" + kwPrint + " bump(2);\n" +
+			kwVar + " t = 0;\n" +
+			kwFor + " (" + kwVar + " i = " + w(4, "0") + "; " + w(5, "i < 3") + "; i = i + 1) { " + kwVar + " row = [1, 2]; row[0] = row[0] + i; t = t + row[0]; }\n" +
+			kwPrint + " t;\n"
+		got, ok := runSource(src)
+		verifAssert("parenthesised-program-runs", ok)
+		outs[run] = got
+	}
+	verifAssert("parentheses-do-not-change-what-is-printed", sameLines(outs[0], outs[1]))
+	verifAssert("parenthesised-program-prints-the-expected", sameLines(outs[1], []string{"[1 0 0]", "[0 1 0]", "[0 0 1]", "6"}))
+}
